@@ -3,6 +3,7 @@
 //! `src/bin/`, structured as `gen` (seed, tier -> case inputs) and `exec` (case input -> what the
 //! real code returned), so that a replay is just `exec` on a stored input.
 
+pub mod evalcase;
 pub mod pragen;
 
 use serde_json::{Value, json};
